@@ -18,9 +18,9 @@ type ConsSpec struct {
 
 // Burst is a run of writes with (almost) no gap between them, followed by a pause >= 5 ms.
 type Burst struct {
-	Chunks []int `json:"chunks"`  // sizes
-	GapUs  []int `json:"gap_us"`  // sleep before each chunk (0 = back to back)
-	PauseMs int  `json:"pause_ms"` // pause after the burst (at least 5)
+	Chunks  []int `json:"chunks"`   // sizes
+	GapUs   []int `json:"gap_us"`   // sleep before each chunk (0 = back to back)
+	PauseMs int   `json:"pause_ms"` // pause after the burst (at least 5)
 }
 
 // Stream is one case.
@@ -50,11 +50,11 @@ type Stream struct {
 	Feeds     int      `json:"feeds,omitempty"`
 	Order     string   `json:"order,omitempty"`
 	// typed websocket messages ("wstext"): sent by a websocket client of /ws/<feed>, forwarded by a destination rule
-	Msgs []TMsg `json:"msgs,omitempty"`
-	CutMin int  `json:"cut_min,omitempty"`
-	CutMax int  `json:"cut_max,omitempty"`
-	Abrupt bool `json:"abrupt,omitempty"`
-	Obs       *Observed  `json:"obs,omitempty"`
+	Msgs   []TMsg    `json:"msgs,omitempty"`
+	CutMin int       `json:"cut_min,omitempty"`
+	CutMax int       `json:"cut_max,omitempty"`
+	Abrupt bool      `json:"abrupt,omitempty"`
+	Obs    *Observed `json:"obs,omitempty"`
 }
 
 // TMsg is one websocket message with its type.
@@ -80,19 +80,19 @@ type Read struct {
 
 // Observed is what the real code did with a stream.
 type Observed struct {
-	Tap       [][]byte `json:"tap"`    // every hand-off, copied at once by a subscriber that never lags
-	Reads     [][]Read `json:"reads"`  // per consumer
-	Events    []Ev     `json:"events"` // reconstructed schedule
-	Ambiguous string   `json:"ambiguous,omitempty"` // the schedule could not be reconstructed unambiguously: case discarded
-	Raced     string   `json:"raced,omitempty"`     // a hand-off arrived while a consumer was acting: the oracle still applies, the case is not given to the model
-	Err       string   `json:"err,omitempty"`       // the stream did not complete
-	Posted    int      `json:"posted"`
-	Frames    [][]byte `json:"frames,omitempty"`    // wsout: the websocket messages the slow client received
-	FrameLens []int    `json:"frame_lens,omitempty"`
-	Conns     []int    `json:"conns,omitempty"`
-	PerDest   [][][]byte `json:"per_dest,omitempty"` // agg: what each destination received, in order
-	RecvText  []bool   `json:"recv_text,omitempty"`  // wstext: for every message received (Frames), whether it came as a text message     // dest: for every message received (Frames), the number of the connection it came over
-	TapLens   []int    `json:"tap_lens,omitempty"` // lengths of the hand-offs (kept when the bytes are dropped from a report)
+	Tap       [][]byte   `json:"tap"`                 // every hand-off, copied at once by a subscriber that never lags
+	Reads     [][]Read   `json:"reads"`               // per consumer
+	Events    []Ev       `json:"events"`              // reconstructed schedule
+	Ambiguous string     `json:"ambiguous,omitempty"` // the schedule could not be reconstructed unambiguously: case discarded
+	Raced     string     `json:"raced,omitempty"`     // a hand-off arrived while a consumer was acting: the oracle still applies, the case is not given to the model
+	Err       string     `json:"err,omitempty"`       // the stream did not complete
+	Posted    int        `json:"posted"`
+	Frames    [][]byte   `json:"frames,omitempty"` // wsout: the websocket messages the slow client received
+	FrameLens []int      `json:"frame_lens,omitempty"`
+	Conns     []int      `json:"conns,omitempty"`
+	PerDest   [][][]byte `json:"per_dest,omitempty"`  // agg: what each destination received, in order
+	RecvText  []bool     `json:"recv_text,omitempty"` // wstext: for every message received (Frames), whether it came as a text message     // dest: for every message received (Frames), the number of the connection it came over
+	TapLens   []int      `json:"tap_lens,omitempty"`  // lengths of the hand-offs (kept when the bytes are dropped from a report)
 }
 
 // genBytes: bytes [off, off+n) of the input with the given seed; Corr/C17.v [gen] computes the same.
